@@ -1,0 +1,34 @@
+//go:build verif
+
+// Contracts for package core, read by /verif/gvc (comment-only file; it declares
+// nothing and is compiled only with -tags verif).
+package core
+
+// ---- C06: the optimizer never panics on any wire-valid statement ---------------------
+// Input model (what protobuf/JSON decoding can produce): the payload of a populated
+// oneof wrapper is non-nil; condition values are arbitrary JSON values.
+
+//@ func extractHasVals
+//@   property C06
+//@   option prelude=json
+//@   option load=gripql
+//@   nopanic
+//@   requires wire: h != nil && h.Has != nil
+//@   axiom wireWrap: forall s:*gripql.HasExpression :: s != nil && isAPtr(s.Expression) ==> ref(s.Expression) != 0
+//@   pure
+
+// IndexStartOptimize: every index it remembers is a valid position of the pipeline,
+// so none of its slice and index expressions can go out of range.
+//@ func IndexStartOptimize
+//@   property C06
+//@   option prelude=json
+//@   option load=gripql,jsonpath,util/protoutil
+//@   nopanic
+//@   axiom wireWrapStmt: forall s:*gripql.GraphStatement :: s != nil && isAPtr(s.Statement) ==> ref(s.Statement) != 0
+//@   axiom wireWrapHas: forall s:*gripql.HasExpression :: s != nil && isAPtr(s.Expression) ==> ref(s.Expression) != 0
+//@   axiom wireHas: forall w:*gripql.GraphStatement_Has :: w != nil ==> w.Has != nil
+//@   loop 1 invariant ids: soff(hasIDIdx) == 0 && len(hasIDIdx) >= 0 &&
+//@       (forall j :: 0 <= j && j < len(hasIDIdx) ==> 0 <= hasIDIdx[j] && hasIDIdx[j] < len(pipe))
+//@   loop 1 invariant labels: soff(hasLabelIdx) == 0 && len(hasLabelIdx) >= 0 &&
+//@       (forall j :: 0 <= j && j < len(hasLabelIdx) ==> 0 <= hasLabelIdx[j] && hasLabelIdx[j] < len(pipe))
+//@   loop 1 invariant range: rangeindex < len(pipe)
